@@ -20,14 +20,14 @@ CHECKS = {
    note=TRUST + "String axioms (count/lastIndex/runeCount over concatenation) are trusted and conformance-tested in the thorough tier; spans produced by regexp are assumed to end on rune boundaries (regexpSpanCut). Strictly-increasing offsets and 'concatenation equals input' over a whole run follow by induction over calls from the per-call contract (paper lemma). text/scanner-based and generated lexers are not covered.",
    ref="DESIGN.md section 4, C04"),
  "C03": dict(level="proof",
-   text="Next is proved to select, in every state, the first rule in declared order that matches the whole remaining input (loop invariant + exit assertions: no earlier rule is Return or matches), to treat Return by popping exactly one state at the same offset (or to stop at the root), ActionPush/ActionPop are proved to push exactly {state, groups} / pop exactly the top and to reject empty matches; getPattern returns the compiled pattern or the back-reference expansion; NewSimple is proved to build exactly {\"Root\": rules in order}.",
-   note=TRUST + "Regexp matching itself (re_matches, re_end) is uninterpreted/trusted; BackrefRegex has an assumed contract here. New is proved for anchoring and complete include expansion; every rule is proved to get a token type below EOF (so Next returns the EOF type only at the end of the input); its exact table (splice order), distinct numbers for distinct names and ignore flags are covered by the bounded stand-in reported in the same evidence file (bounded, not proof).",
+   text="Next is proved to select, in every state, the first rule in declared order that matches the whole remaining input (loop invariant + exit assertions: no earlier rule is Return or matches), to treat Return by popping exactly one state at the same offset (or to stop at the root), ActionPush/ActionPop are proved to push exactly {state, groups} / pop exactly the top and to reject empty matches; getPattern returns the compiled pattern or the back-reference expansion; NewSimple is proved to build exactly {\"Root\": rules in order}. New is proved to set a rule's ignore flag exactly when its name starts with a lower-case letter (first rune; kept by include expansion), and Next to emit the matched rule's own symbol and never a token of such a rule; every lexer gets a state stack of its own.",
+   note=TRUST + "Regexp matching itself (re_matches, re_end) is uninterpreted/trusted; BackrefRegex has an assumed contract here. New is proved for anchoring and complete include expansion; every rule is proved to get a token type below EOF (so Next returns the EOF type only at the end of the input); its exact table (splice order) and distinct numbers for distinct names are covered by the bounded stand-in reported in the same evidence file (bounded, not proof).",
    ref="DESIGN.md section 4, C03"),
 }
 
 CHECKS.update({
  "C13": dict(level="proof",
-   text="The lookahead mechanism is under contract: parseContext.Stop returns exactly (lookahead >= 0 && branch.cursor - cursor > lookahead) (so an attempt is abandoned only if it consumed no more than the lookahead, and the decision is monotone in the lookahead), with machine-integer overflow obligations on the threshold arithmetic; on true it has adopted the branch, on false the context is untouched. Every composite node (group, disjunction, sequence, capture, strct, union) is proved to propagate a committed error and to keep cursors monotone, so that an enclosing Stop sees it again. UseLookahead's closure is proved to store the value it was given unchanged (negative and > MaxLookahead included) and Build to leave the lookahead the options chose untouched. The whole-run statement is additionally decided within a bound by the grammar-meaning differential (bounded stand-in in the same evidence file, never counted as proved): every small grammar x input x lookahead is run through the real parser and through a reference interpreter of the ordered-choice, bounded-backtracking meaning written from the property text.",
+   text="The lookahead mechanism is under contract: parseContext.Stop returns exactly (lookahead >= 0 && branch.cursor - cursor > lookahead) (so an attempt is abandoned only if it consumed no more than the lookahead, and the decision is monotone in the lookahead), with machine-integer overflow obligations on the threshold arithmetic and on the creation and branching of the parse context (the lookahead is never narrowed); on true it has adopted the branch, on false the context is untouched. Every composite node (group, disjunction, sequence, capture, strct, union) is proved to propagate a committed error and to keep cursors monotone, so that an enclosing Stop sees it again. UseLookahead's closure is proved to store the value it was given unchanged (negative and > MaxLookahead included) and Build to leave the lookahead the options chose untouched. The whole-run statement is additionally decided within a bound by the grammar-meaning differential (bounded stand-in in the same evidence file, never counted as proved): every small grammar x input x lookahead is run through the real parser and through a reference interpreter of the ordered-choice, bounded-backtracking meaning written from the property text.",
    note=TRUST + "The step from these per-function contracts to 'a parse that succeeded with k succeeds identically with k' > k' (only Stop reads lookahead; every decision that was false for k is false for k') is a paper lemma, listed as unchecked.",
    ref="DESIGN.md section 4, C13"),
  "C02": dict(level="proof",
@@ -75,7 +75,7 @@ BOUNDED_TECH = "bounded stand-in of a contract the VC generator cannot reach: th
 CHECKS.update({
  "C08": dict(level="exploration", technique=BOUNDED_TECH,
    text="Bounded stand-in (not proof): validate() is compared with the specification 'some reachable production can re-enter itself before consuming a token' (nullable / first-position sets computed as least fixed points, with ~ and lookahead bodies entered without consuming) on every grammar of a finite family of node graphs built directly in-package: tens of thousands of grammars, exhaustively. isLeftRecursive steers a closure-based traversal over a cyclic graph and is outside the VC generator's reach.",
-   note="Bound: one production with <= 4 (thorough 5) nodes, two productions with <= 3 nodes each (thorough 3 and 4), over literal, production reference, a union-typed reference, sequence, choice, ? * + !, ~, (?= ), (?! ), capture, redundant parentheses. The consequence 'recursion depth bounded by input length' is a paper lemma. The oracle is an independent fixed-point formulation.",
+   note="Bound: one production with <= 4 (thorough 5) nodes, two productions with <= 3 nodes each (thorough 3 and 4), over literal, production reference, a union-typed reference, a reference to the EOF token, an untyped \"\" literal, sequence, choice, ? * + !, ~, (?= ), (?! ), capture, redundant parentheses. The consequence 'recursion depth bounded by input length' is a paper lemma. The oracle is an independent fixed-point formulation.",
    ref="DESIGN.md section 4, C08"),
  "C14": dict(level="exploration", technique=BOUNDED_TECH,
    text="Bounded stand-in (not proof): for every grammar of the same finite family (plus a literal that needs escaping) Parser.String() is parsed with the ebnf package; root first, each reachable production defined once, literal / reference / operator counts equal to the grammar's, and print(parse(text)) parses to an equal tree. Language membership and tree equality after a print/parse cycle are not first-order contracts over the printer's code.",
